@@ -6,6 +6,7 @@ import (
 	"reflect"
 	"strconv"
 	"strings"
+	"time"
 
 	"pault.ag/go/debian/control"
 	"pault.ag/go/debian/dependency"
@@ -32,6 +33,17 @@ type P2 struct {
 	B    bool
 	ReqI int  `required:"true"`
 	ReqB bool `control:"Req-B" required:"true"`
+}
+
+// P6: fields that are skipped (control:"-") may be of kinds the encoder cannot render at all
+type P6 struct {
+	A string
+	M map[string]string `control:"-"`
+	F float64           `control:"-"`
+	T time.Time         `control:"-"`
+	P *int              `control:"-"`
+	I interface{}       `control:"-"`
+	Z string
 }
 
 type P3 struct {
@@ -70,6 +82,8 @@ func newProbe(t string) interface{} {
 		return &P4{}
 	case "P5":
 		return &P5{}
+	case "P6":
+		return &P6{}
 	}
 	die("unknown probe type %s", t)
 	return nil
@@ -214,7 +228,7 @@ func fill(probe interface{}, t string, val J) {
 			continue
 		}
 		x, ok := val[d["name"].(string)]
-		if !ok {
+		if !ok || strings.HasPrefix(d["kind"].(string), "other:") {
 			continue
 		}
 		fv := rv.FieldByName(d["name"].(string))
@@ -238,6 +252,10 @@ func dump(probe interface{}, t string) J {
 	for _, dj := range describe(t) {
 		d := dj.(J)
 		if d["kind"] == "raw" {
+			continue
+		}
+		if strings.HasPrefix(d["kind"].(string), "other:") {
+			out[d["name"].(string)] = B("") // kinds outside the encoder's repertoire: only ever skipped
 			continue
 		}
 		fv := rv.FieldByName(d["name"].(string))
@@ -264,6 +282,13 @@ func execStruct(vec J, out *Writer) {
 		t := vec["type"].(string)
 		p := newProbe(t)
 		fill(p, t, M(vec["value"]))
+		if p6, ok := p.(*P6); ok {
+			p6.M, p6.F, p6.T, p6.I = map[string]string{"k": "v"}, 1.5, time.Unix(1, 0), 3.25
+			if p6.A != "" {
+				n := 7
+				p6.P = &n
+			} // else: a nil pointer
+		}
 		rec := J{"ev": "rt", "in": vec, "panic": false, "marshal_ok": false, "unmarshal_ok": false,
 			"bytes": B(""), "para": paraToJ(control.Paragraph{}), "decoded": J{}}
 		func() {
